@@ -119,6 +119,12 @@ CHECKS.update(
         note="math shim inside qto (ideal log10, floor/ceil via ToInt) is a stub and part of the claim; MIP search runs concretely; NaN/inf, uncertain magnitudes outside.",
         design="4/C15",
     ),
+    C16=dict(
+        text="About 65 NumPy functions, ufuncs and ndarray methods applied through pint to object-dtype arrays of symbolic numbers: the result with inputs in (u, v) is proved equal element-wise, for all element values, to the result with "
+        "the inputs re-expressed in (u', v') (comparisons inside NumPy fork symbolically); the output unit is compared with the implied-unit table; incompatible inputs must raise; inputs must be unchanged; in-place add, item assignment and copyto convert into the target's units.",
+        note="Only functions that accept object dtype (roughly half of the handled table); float-dtype kernels (trigonometry, exp/log, isclose, interp, sqrt/std ...) outside; arrays of length 3.",
+        design="4/C16",
+    ),
     C17=dict(
         text="ureg.wraps/check/with_context of the real code applied to ~1500 generated signature structures (specs None/unit/Unit/'=A'/'=A*B'/'=A**2', positional/keyword/default call forms, strict on/off, scalar/tuple/reference returns); "
         "the magnitudes observed inside the wrapped function and the re-wrapped result are proved equal for all argument magnitudes to an independently written oracle; exceptions and arity rejection are part of the oracle.",
